@@ -96,4 +96,17 @@ theorem P_ft_default_window_identity (x v : List ℝ) (hv : x.length = v.length)
 example : Spec.cropL 1 2 [0, 1, 1.5, 2, 3] [10, 11, 12, 13, 14] = [11, 12, 13] := by
   simp [Spec.cropL]; norm_num
 
+/-- P: a window whose lower limit lies above its upper limit is the empty interval: nothing survives, whatever the grid (so `apply_cropping`
+    returns three empty vectors; a "helpful" re-ordering of the limits falsifies this) -/
+theorem P_crop_reversed_empty (x v : List ℝ) (lo hi : ℝ) (h : hi < lo) : Spec.cropL lo hi x v = [] := by
+  simp only [Spec.cropL, List.map_eq_nil_iff, List.filter_eq_nil_iff, Bool.and_eq_true, decide_eq_true_eq, not_and, not_le]
+  intro p _ h1
+  exact lt_of_lt_of_le h h1
+
+theorem P_apply_cropping_reversed_empty (x y : List ℝ) (lo hi : ℝ) (dy : Option (List ℝ))
+    (hy : x.length = y.length) (hd : ∀ d, dy = some d → x.length = d.length) (h : hi < lo) :
+    Transformer.apply_cropping kw junk x y lo hi dy = ([], [], []) := by
+  rw [R_apply_cropping_filter kw junk x y lo hi dy hy hd, P_crop_reversed_empty x x lo hi h, P_crop_reversed_empty x y lo hi h,
+    P_crop_reversed_empty x _ lo hi h]
+
 end C13
